@@ -26,10 +26,48 @@ from easynetwork.exceptions import BusyResourceError, ClientClosedError, StreamP
 from easynetwork.lowlevel._stream import StreamDataConsumer
 from easynetwork.lowlevel.api_async.endpoints.stream import AsyncStreamEndpoint
 from easynetwork.protocol import StreamProtocol
+from easynetwork.serializers.abc import AbstractIncrementalPacketSerializer
+from easynetwork.serializers.tools import GeneratorStreamReader
+
+
+class Chunked(AbstractIncrementalPacketSerializer[bytes, bytes]):
+    """round 5: packets are raw byte strings (no separator byte inside) sent as `n` pieces followed by the separator, so that
+    send_all_from_iterable() really gets several chunks per packet (pieces may be EMPTY when the payload is shorter than n:
+    an empty chunk is a chunk); `views` = the buffer type of each piece, cycled: "b" bytes, "a" bytearray, "m" memoryview,
+    "H" memoryview with 2-byte items (even lengths only)"""
+
+    def __init__(self, n: int, sep: bytes = b"\n", views: str = "b", limit: int = 65536) -> None:
+        self.n, self.sep, self.views, self.limit = max(1, n), sep, views or "b", limit
+
+    def incremental_serialize(self, packet: bytes):
+        packet = bytes(packet)
+        size = max(1, -(-len(packet) // self.n))
+        pieces = [packet[i * size:(i + 1) * size] for i in range(self.n)] + [self.sep]
+        for i, piece in enumerate(pieces):
+            v = self.views[i % len(self.views)]
+            if v == "a":
+                yield bytearray(piece)
+            elif v == "m":
+                yield memoryview(piece)
+            elif v == "H" and len(piece) % 2 == 0 and piece:
+                yield memoryview(piece).cast("H")
+            else:
+                yield piece
+
+    def incremental_deserialize(self):
+        reader = GeneratorStreamReader()
+        data = yield from reader.read_until(self.sep, self.limit, keep_end=False)
+        return data, reader.read_all()
+
+
+def build_serializer(spec: dict) -> Any:
+    if spec["k"] == "chunked":
+        return Chunked(spec["n"], bytes.fromhex(spec.get("sep", "0a")), spec.get("views", "b"))
+    return sers.build(spec)
 
 
 def build_protocol(spec: dict) -> StreamProtocol:
-    return StreamProtocol(sers.build(spec))
+    return StreamProtocol(build_serializer(spec))
 
 
 def packet_of(spec: dict, hexs: str) -> Any:
